@@ -103,6 +103,8 @@ void *memmove(void *dst, const void *src, size_t n)
 {
     __CPROVER_assert(n == 0 || __CPROVER_r_ok(src, n), "memmove source region readable");
     __CPROVER_assert(n == 0 || __CPROVER_w_ok(dst, n), "memmove destination region writeable");
+    /* a failed check above is reported; what follows models the valid calls only */
+    __CPROVER_assume(n == 0 || (__CPROVER_r_ok(src, n) && __CPROVER_w_ok(dst, n)));
     if (n > 0) {
         const char *s = (const char *) src;
         char *d = (char *) dst;
@@ -112,6 +114,33 @@ void *memmove(void *dst, const void *src, size_t n)
         d[0] = b; d[i0] = b0; d[i1] = b1; d[i2] = b2; d[i3] = b3;
     }
     return dst;
+}
+#endif
+
+/* ---- realloc --------------------------------------------------------------------
+ * Same idea as env.h's VERIF_REALLOC_ELEM_T model, for byte buffers: OVER-APPROXIMATION of realloc.
+ * The result is a FRESH block of n bytes (the real one may also return the old block grown in
+ * place; code correct for a moved block is correct for an unmoved one as long as it does not use the
+ * old pointer, and using the old pointer is a reported failure here because the old block is freed).
+ * Contents are ARBITRARY except at the positions 0, m-1, m-2 (m = min(old size, n)) and the ghost
+ * positions vg_k, vg_k2, which are copied.  realloc(NULL, n) = malloc(n); n == 0 is not used
+ * (libast's REALLOC macro maps it to free). */
+#ifndef VSTR_BUILTIN_REALLOC
+void *realloc(void *p, size_t n)
+{
+    if (p == NULL) return malloc(n);
+    __CPROVER_assert(__CPROVER_POINTER_OFFSET(p) == 0 && __CPROVER_DYNAMIC_OBJECT(p), "realloc: pointer is the start of a heap block");
+    __CPROVER_assume(__CPROVER_POINTER_OFFSET(p) == 0 && __CPROVER_DYNAMIC_OBJECT(p));
+    char *r = malloc(n);
+    const char *o = (const char *) p;
+    size_t m = __CPROVER_OBJECT_SIZE(p);
+    if (n < m) m = n;
+    if (m > 0) {
+        size_t i0 = (vg_k < m) ? vg_k : 0, i1 = (vg_k2 < m) ? vg_k2 : 0, i2 = m - 1, i3 = (m >= 2) ? m - 2 : 0;
+        r[0] = o[0]; r[i0] = o[i0]; r[i1] = o[i1]; r[i2] = o[i2]; r[i3] = o[i3];
+    }
+    free(p);
+    return r;
 }
 #endif
 
